@@ -815,6 +815,11 @@ func (r *envelopingReader) Read(data []byte) (n int, err error) {
 			return bytesRead, err
 		}
 		// otherwise EOF, fall through
+		if limited, ok := r.current.(*io.LimitedReader); ok && limited.N > 0 {
+			// The body ended before the current message was complete.
+			r.err = io.ErrUnexpectedEOF
+			return 0, r.err
+		}
 	}
 
 	if err := r.prepareNext(); err != nil {
